@@ -50,15 +50,25 @@ def scenarios(tier):
                             sessions = [S(0, 1, True, False, maxNormalOrders=2), S(1, 3, True, True, maxNormalOrders=2, events=["PL"])]
                         sc[name] = Scenario(name, mkcfg(sessions, markets=markets, agents=ags, events=ev),
                                             meta=dict(limit_rule=dict(targets=targets, r=r, enabled=enabled)))
+                        if enabled and r == 0.25 and tick == 1.0 and len(targets) <= 2 and shape != "rule_in_session1":
+                            # the same run with a high-frequency agent (the runner's second dispatch path) sending out-of-band orders
+                            n3 = name + "-hft_agent"
+                            ags3 = ags + [dict(name="H0", cls="ScriptedHFAgent", menu=menu, program=[3, 4, 1, 2], markets=["M0", "M1", "M2"])]
+                            s3 = [dict(x, maxHighFrequencyOrders=1, highFrequencySubmitRate=1.0) for x in sessions]
+                            sc[n3] = Scenario(n3, mkcfg(s3, markets=markets, agents=ags3, events=ev),
+                                              meta=dict(limit_rule=dict(targets=targets, r=r, enabled=enabled)))
                         if enabled and r == 0.25 and tick == 1.0 and len(targets) == 1 and shape != "rule_in_session1":
                             # the same run with other events (a halt rule too wide to act, a fundamental shock on M2) listed
                             # before / after the price limit rule
                             import copy
                             for first in (True, False):
+                                # ... and a user event with before-order hooks registered for single steps and for all steps
                                 ev2 = dict(ev, HR={"class": "TradingHaltRule", "targetMarkets": ["M0", "M1"], "triggerChangeRate": 0.9375, "haltingTimeLength": 1},
-                                           FS={"class": "FundamentalPriceShock", "target": "M2", "triggerTime": 1, "priceChangeRate": 0.5, "shockTimeLength": 1})
+                                           FS={"class": "FundamentalPriceShock", "target": "M2", "triggerTime": 1, "priceChangeRate": 0.5, "shockTimeLength": 1},
+                                           PE={"class": "ProbeEvent", "hooks": [["order", True, [0], None], ["order", True, [1, 2], None], ["order", True, None, None],
+                                                                                  ["order", False, [1], None]]})
                                 s2 = copy.deepcopy(sessions)
-                                s2[0]["events"] = ["HR", "FS", "PL"] if first else ["PL", "HR", "FS"]
+                                s2[0]["events"] = ["HR", "FS", "PE", "PL"] if first else ["PL", "HR", "FS", "PE"]
                                 n2 = "%s-other_events_%s" % (name, "first" if first else "last")
                                 sc[n2] = Scenario(n2, mkcfg(s2, markets=markets, agents=ags, events=ev2),
                                                   meta=dict(limit_rule=dict(targets=targets, r=r, enabled=enabled)))
